@@ -13,7 +13,10 @@ import (
 	"strings"
 	"time"
 
+	libio "github.com/fatedier/golib/io"
+
 	v1 "github.com/fatedier/frp/pkg/config/v1"
+	"github.com/fatedier/frp/pkg/util/vhost"
 	plugin "github.com/fatedier/frp/pkg/plugin/client"
 	"github.com/fatedier/frp/pkg/transport"
 	"verifharness/hx"
@@ -295,11 +298,16 @@ func drivePlugin(cfg *hx.RunCfg) error {
 			pr.close()
 		}
 	}
+	acases, err := agedCases(g, st, be, plainAddr)
+	if err != nil {
+		return err
+	}
+	cases = append(cases, acases...)
 	cf := &hx.CaseFile{
 		Imports: "From FRP Require Import Corr.C02.\nOpen Scope Z_scope.\n",
 		Typ:     "case",
 		Cases:   cases,
-		Tail: "Definition M := Eval vm_compute in mismatches check_case cases.\nPrint M.\n" +
+		Tail: "Definition M := Eval vm_compute in mismatches check_case cases.\nPrint M.\n" + counter("NAGED", "is_aged") +
 			counter("NH2H", "(is_plug HrH2H)") + counter("NH2HS", "(is_plug HrH2HS)") + counter("NHS2H", "(is_plug HrHS2H)") + counter("NHS2HS", "(is_plug HrHS2HS)") + counter("NPLUGUPGRADE", "(is_tunnel 3)"),
 	}
 	if err := cf.Write(cfg.Out); err != nil {
@@ -311,4 +319,113 @@ func drivePlugin(cfg *hx.RunCfg) error {
 	cfg.St["distribution"] = sortedCounts(st.dist)
 	cfg.St["impl_failures"] = append([]map[string]string{}, st.impl...)
 	return nil
+}
+
+// agedCases: the data path of an https proxy with a shortened sniffing timeout.  The real vhost HTTPS
+// muxer (frps passes a 30 s constant, here 300 ms) routes a TLS connection by SNI; the routed connection is
+// joined (libio.Join, as server/proxy/proxy.go handleUserTCPConnection does) with a connection that ends in the
+// real https2http plugin.  The backend streams its answer slowly, so that most of it is written when the user
+// connection is older than the timeout; then a second request is sent on the same, by now old, connection.
+func agedCases(g *hx.Gen, st *fwdStats, be *backends, plainAddr string) ([]string, error) {
+	const timeout = 300 * time.Millisecond
+	ln, err := net.Listen("tcp", net.JoinHostPort(c02Addr, "0"))
+	if err != nil {
+		return nil, err
+	}
+	defer ln.Close()
+	mux, err := vhost.NewHTTPSMuxer(ln, timeout)
+	if err != nil {
+		return nil, err
+	}
+	rl, err := mux.Listen(context.Background(), &vhost.RouteConfig{Domain: "m.c02.test"})
+	if err != nil {
+		return nil, err
+	}
+	pr, err := newPluginRig(v1.PluginHTTPS2HTTP, pluginOpts{localAddr: plainAddr, headers: map[string]string{}}, nil)
+	if err != nil {
+		return nil, err
+	}
+	defer pr.close()
+	go func() {
+		for {
+			uc, err := rl.Accept()
+			if err != nil {
+				return
+			}
+			wc, err := net.Dial("tcp", pr.ln.Addr().String())
+			if err != nil {
+				uc.Close()
+				continue
+			}
+			go libio.Join(wc, uc)
+		}
+	}()
+	var cases []string
+	for rep := 0; rep < 2; rep++ {
+		body := g.Bytes(5 * 24)
+		resp := &scripted{status: 200, framing: "chunked", body: body, chunks: []int{24}, slowFirstMs: 550, slowMs: 120,
+			hdrs: []hdr{{"Content-Type", "application/octet-stream"}}}
+		be.script(resp)
+		be.drain()
+		be.mu.Lock()
+		be.chunkTimes = nil
+		be.mu.Unlock()
+		t0 := time.Now()
+		u, err := dialUser(ln.Addr().String(), fmt.Sprintf("127.0.2.%d", 2+g.Intn(250)))
+		if err != nil {
+			return nil, err
+		}
+		tc := tls.Client(u.c, &tls.Config{InsecureSkipVerify: true, ServerName: "m.c02.test", NextProtos: []string{"http/1.1"}})
+		_ = tc.SetDeadline(time.Now().Add(3 * time.Second))
+		if err := tc.Handshake(); err != nil {
+			u.close()
+			st.fail("impl:muxed-tls-handshake", err.Error(), "m.c02.test")
+			continue
+		}
+		_ = tc.SetDeadline(time.Time{})
+		tu := newUserConn(tc)
+		var reqAges []int64
+		answered := 0
+		reqAges = append(reqAges, time.Since(t0).Milliseconds())
+		got, err1 := tu.do(simpleGet("m.c02.test", "/slow-download"), 5*time.Second)
+		var gotBody []byte
+		if got != nil {
+			gotBody = got.body
+		}
+		if err1 == nil && got.status == 200 {
+			answered++
+		}
+		// second request on the same connection, which is now older than the timeout
+		be.script(&scripted{status: 200, framing: "cl", body: []byte("second"), hdrs: []hdr{{"Content-Type", "text/plain"}}})
+		reqAges = append(reqAges, time.Since(t0).Milliseconds())
+		got2, err2 := tu.do(&userReq{method: "POST", target: "/second", host: "m.c02.test", framing: "cl", body: []byte("abc")}, 3*time.Second)
+		if err2 == nil && got2.status == 200 && string(got2.body) == "second" {
+			answered++
+		}
+		tu.close()
+		be.mu.Lock()
+		times := append([]time.Time{}, be.chunkTimes...)
+		be.mu.Unlock()
+		var chunks []string
+		for i, ct := range times {
+			lo, hi := i*24, min((i+1)*24, len(body))
+			if lo >= len(body) {
+				break
+			}
+			chunks = append(chunks, fmt.Sprintf("(%d, %s)", ct.Sub(t0).Milliseconds(), hx.Hx(body[lo:hi])))
+		}
+		ages := make([]string, len(reqAges))
+		for i, a := range reqAges {
+			ages[i] = fmt.Sprint(a)
+		}
+		cs := fmt.Sprintf("CAged %d %s %s %s %d", timeout.Milliseconds(), hx.List(chunks), hx.Hx(gotBody), hx.List(ages), answered)
+		cases = append(cases, cs)
+		st.dist["aged:https-muxed-connection"]++
+		if err1 != nil || string(gotBody) != string(body) || answered != 2 {
+			st.fail("impl:muxed-connection-cut-after-vhost-timeout",
+				fmt.Sprintf("https data path (vhost HTTPS muxer with a %d ms timeout -> Join -> https2http plugin): a %d-byte answer streamed over %d ms arrived as %d bytes (%v); second request on the aged connection answered: %v (%v)",
+					timeout.Milliseconds(), len(body), time.Since(t0).Milliseconds(), len(gotBody), err1, err2 == nil, err2), cs)
+		}
+	}
+	return cases, nil
 }
